@@ -306,6 +306,13 @@ def run(ctx, rep):
     # ------------------------------------------------------------ R06.k a rejected request leaves no trace
     rejections_precede_construction(ctx, rep, 'R06.k')
 
+    # ------------------------------------------------------------ R06.l a deleted group takes what belongs to it along
+    rep.rule('R06.l', 'deleting a consumer group removes the group from both catalogue maps and removes the offsets stored for *that group* (the group-offset map of every partition, keyed by the group id): ids are reused, so whatever survives is inherited by the next group created under the same id', floor=3, analysis='A9 call-argument forms')
+    import forms as forms_
+    forms_.check_call_args(ctx, rep, 'R06.l', {'server::streaming::topics::topic::Topic::delete_consumer_group': {
+        'AHashMap::remove': ['re:^self\\.consumer_groups, .*\\.group_id$', 're:^self\\.consumer_groups_ids, .*\\.name$'],
+        'DashMap::remove': ['re:\\.consumer_group_offsets, .*\\.group_id$'],
+    }}, skip_self=False, cd=1)
 
 
 CONSTRUCTED = re.compile(r'server::streaming::(topics::topic::Topic|streams::stream::Stream|partitions::partition::Partition|topics::consumer_group::ConsumerGroup|users::user::User|personal_access_tokens::personal_access_token::PersonalAccessToken)::(create|new|empty|with_permissions)$')
